@@ -18,13 +18,14 @@ EXPLANATION = (
 
 def run(ctx: RuleContext, p: Program) -> None:
     ts = T.TS(p)
-    T.rule_ts_idx(ctx, ts, 'TS-IDX')
-    T.rule_ts_handle(ctx, ts, 'TS-HANDLE')
-    T.rule_ts_detach(ctx, ts, 'TS-DETACH')
-    T.rule_len(ctx, ts, 'LEN')
-    T.rule_own_store(ctx, ts, 'OWN-STORE')
+    ctx.try_rule(T.rule_ts_idx, ts, 'TS-IDX')
+    ctx.try_rule(T.rule_ts_handle, ts, 'TS-HANDLE')
+    ctx.try_rule(T.rule_ts_detach, ts, 'TS-DETACH')
+    ctx.try_rule(T.rule_len, ts, 'LEN')
+    ctx.try_rule(T.rule_own_store, ts, 'OWN-STORE')
+    ctx.try_rule(T.rule_ts_gate, ts, 'TS-GATE')
     from . import storeforms
-    storeforms.rule_nav_form(ctx, ts, 'NAV-FORM')
+    ctx.try_rule(storeforms.rule_nav_form, ts, 'NAV-FORM')
     ctx.not_decided += ['arithmetic of get_prev/get_next/iter/get_index/get_position',
                         'split / merge thresholds', 'agreement with a reference list over operation histories']
     ctx.assumptions += ['_update_block_indexes(k) re-indexes blocks k.. (its loop shape is checked, its argument is not)',
